@@ -5,6 +5,6 @@ CONSTANTS
   Idx = {1, 2, 3, 4}
   NegIdx = {2}
   MaxLen = 4
-  Polys <- OnePoly
+  Polys <- SomePolys
   Aligned = TRUE
-INVARIANTS Emit
+INVARIANTS Emit TypeOK RecoversSecret ErrIffShort NeverPanics UsesFirstK MatchesFunction OwnValues
